@@ -210,7 +210,7 @@ def key_hook(interp, name, args, t, body):
     return None
 
 
-def check_keys(ctx, facts, rule):
+def check_keys(ctx, facts, rule, registry_side=True):
     """registry side: new(service); add_handler::<Msg>(); into_handlers() yields exactly {H(U(svc,path)): handler}
     client side: MessageMetadata{service_name: svc, path: path}.to_uri_path() = U(svc,path)"""
     from orswot_abs import _fallback
@@ -224,7 +224,7 @@ def check_keys(ctx, facts, rule):
         new = [b for b in ms if b.argc == 1 and ty_head(b.local_ty(0)) == reg[0]]
         add = [b for b in ms if b.argc == 1 and b.local_ty(1).startswith('&mut ') and b.local_ty(0) == '()']
         fin = [b for b in ms if b.argc == 1 and ty_head(b.local_ty(1)) == reg[0] and 'BTreeMap' in b.local_ty(0) or b.argc == 1 and ty_head(b.local_ty(1)) == reg[0] and 'HashMap' in b.local_ty(0)]
-        if len(new) != 1 or len(add) != 1 or len(fin) != 1:
+        if registry_side and (len(new) != 1 or len(add) != 1 or len(fin) != 1):
             raise Unmodelled('ServiceRegistry new / add_handler / into_handlers not identified by signature (%d/%d/%d)' % (len(new), len(add), len(fin)))
         mm = [b for b in facts.bodies.values() if b.crate == 'datacake_rpc' and b.kind == 'method' and b.name.endswith('::MessageMetadata::to_uri_path')]
         mma = facts.adts.get(R + 'request::MessageMetadata')
@@ -236,14 +236,16 @@ def check_keys(ctx, facts, rule):
             it.unknown_call = actor_abs.lenient_unknown
             it.opaque_fields = True
             return it
-        it = interp_()
-        r = it.run_body(new[0], [('opaque', 'service')])
-        cell = Cell(r)
-        it.run_body(add[0], [('ref', cell)])
-        m = it.deref_all(it.run_body(fin[0], [cell.v]))
-        if m is None or m[0] != 'map':
-            raise Unmodelled('into_handlers does not yield a map')
-        keys = sorted(m[1].items)
+        keys = None
+        if registry_side:
+            it = interp_()
+            r = it.run_body(new[0], [('opaque', 'service')])
+            cell = Cell(r)
+            it.run_body(add[0], [('ref', cell)])
+            m = it.deref_all(it.run_body(fin[0], [cell.v]))
+            if m is None or m[0] != 'map':
+                raise Unmodelled('into_handlers does not yield a map')
+            keys = sorted(m[1].items)
         it2 = interp_()
         md = ('adt', R + 'request::MessageMetadata', 0,
               [Cell(('ref', Cell(('key', 'svc'))) if f['name'] == 'service_name' else ('ref', Cell(('key', 'path'))) if f['name'] == 'path' else ('opaque', f['name']))
@@ -253,7 +255,7 @@ def check_keys(ctx, facts, rule):
         srv = [b for b in facts.bodies.values() if b.crate == 'datacake_rpc' and b.kind == 'method' and b.name.endswith('::Server::add_service')]
         rms = [b for b in facts.bodies.values() if b.crate == 'datacake_rpc' and b.kind == 'method' and b.name.endswith('::Server::remove_service')]
         table_calls = []
-        if len(srv) == 1 and len(rms) == 1:
+        if registry_side and len(srv) == 1 and len(rms) == 1:
             def srv_hook(interp, name, args, t, body):
                 if name.endswith('::RpcService::register_handlers') and args:
                     interp.run_body(add[0], [args[0]], 1)
@@ -275,7 +277,8 @@ def check_keys(ctx, facts, rule):
         return _fallback(ctx, rule, e)
     want = 'H(U(svc,path))'
     ok1 = keys == [want]
-    ctx.ob(rule, 'registry-key', ok1, '%s:%s' % (add[0].file, add[0].line),
+    if registry_side:
+      ctx.ob(rule, 'registry-key', ok1, '%s:%s' % (add[0].file, add[0].line),
            'a handler for (service svc, message path) ends up in the handler map under hash(to_uri_path(svc, path))' if ok1 else
            'a handler for (service svc, message path) ends up in the handler map under %s, expected %s: the server looks a request up under hash(request path), '
            'so the handler is never found (or another message\'s is)' % (keys, want))
@@ -294,3 +297,183 @@ def check_keys(ctx, facts, rule):
            'the client addresses a message as to_uri_path(service_name, path)' if ok2 else
            'the client addresses a message as %s, expected to_uri_path(service_name, path)' % (u[1] if u and u[0] == 'key' else u,))
     return True
+
+
+# ---------------------------------------------------------------------------------------------------------------------
+# C13.SEM (black box): the server's public add / remove of services against what a lookup of a request path finds
+# ---------------------------------------------------------------------------------------------------------------------
+LOCKS = ('lock_api::', 'parking_lot::', 'std::sync::', 'alloc::sync::', 'tokio::sync::')
+
+
+def default_wrapped(interp, ty):
+    """Default::default() of Arc<T> / Mutex<T> / RwLock<T> / a std collection: the wrappers are transparent in this model"""
+    h = ty_head(ty)
+    if h in ('alloc::sync::Arc', 'alloc::rc::Rc', 'alloc::boxed::Box') or h.endswith('::Mutex') or h.endswith('::RwLock'):
+        inner = ty[ty.index('<') + 1:-1]
+        # lock_api::Mutex<RawMutex, T>: the payload is the last argument
+        parts = absint.ty_args_of_tuple('(' + inner + ')')
+        return default_wrapped(interp, parts[-1]) if parts else None
+    v = interp.default_by_type(ty)
+    if v is not None:
+        return v
+    a = interp.facts.adts.get(h)
+    if a is not None and a['kind'] == 'struct':
+        cells = []
+        for f in a['variants'][0]['fields']:
+            fv = default_wrapped(interp, f['ty'])
+            if fv is None:
+                return None
+            cells.append(Cell(fv))
+        return ('adt', h, 0, cells)
+    return None
+
+
+def server_hook(cur, add_handler_body):
+    def h(interp, name, args, t, body):
+        seg = last_seg(name)
+        if name.endswith('::RpcService::service_name'):
+            return ('ref', Cell(('key', cur['name'])))
+        if name.endswith('::Handler::path'):
+            return ('ref', Cell(('key', cur['path'])))
+        if name.endswith('::RpcService::register_handlers') and args:
+            for p in cur['paths']:
+                cur['path'] = p
+                interp.run_body(add_handler_body, [args[0]], 1)
+            return UNIT
+        if name.startswith(LOCKS) or name.startswith('parking_lot'):
+            if seg in ('lock', 'write', 'read', 'upgradable_read', 'try_lock', 'try_write', 'try_read', 'get_mut', 'as_ref', 'deref', 'deref_mut', 'clone') and args:
+                return args[0]
+            if seg in ('new', 'from', 'const_new') and args:
+                return args[-1]
+        if name == 'core::clone::Clone::clone' and args:
+            a = interp.deref_all(args[0])
+            # handles (Arc<..>) are shared, not copied: cloning a registry handle must not fork the registry
+            return a
+        if name == 'core::default::Default::default' and not args and not t['dest']['p']:
+            v = default_wrapped(interp, body.local_ty(t['dest']['l']))
+            if v is not None:
+                return v
+        return key_hook(interp, name, args, t, body)
+    return h
+
+
+def find_instance(interp, v, depth=0, seen=None):
+    seen = seen if seen is not None else set()
+    v = interp.deref_all(v)
+    if v is None or depth > 10:
+        return None
+    if v[0] == 'opaque' and str(v[1]).startswith('svc-instance:'):
+        return v[1].split(':', 1)[1]
+    cells = v[3] if v[0] == 'adt' else v[1] if v[0] in ('tuple', 'arr') else v[2] if v[0] == 'closure' else []
+    for c in cells:
+        if id(c) in seen:
+            continue
+        seen.add(id(c))
+        r = find_instance(interp, c.v, depth + 1, seen)
+        if r is not None:
+            return r
+    return None
+
+
+def check_server(ctx, facts, rule):
+    """every sequence of up to three add_service / remove_service calls, observed through the lookup the connection handler uses"""
+    import itertools
+    from orswot_abs import _fallback
+    import actor_abs
+    R = 'datacake_rpc::'
+    try:
+        srv_adt = [n for n in facts.adts if n.startswith(R) and n.endswith('::Server')]
+        if len(srv_adt) != 1:
+            raise Unmodelled('Server not found')
+        ms = [b for b in facts.bodies.values() if b.crate == 'datacake_rpc' and b.kind == 'method' and not b.name.startswith('<')]
+        add_svc = [b for b in ms if b.name.endswith('::Server::add_service')]
+        rem_svc = [b for b in ms if b.name.endswith('::Server::remove_service')]
+        add_h = [b for b in ms if '::ServiceRegistry::' in b.name and b.argc == 1 and b.local_ty(1).startswith('&mut ') and b.local_ty(0) == '()']
+        lookup = [b for b in ms if b.argc == 2 and b.local_ty(2) in ('&str', '&alloc::string::String') and b.local_ty(0).startswith('core::option::Option<')
+                  and 'OpaqueMessageHandler' in b.local_ty(0) and b.local_ty(1).startswith('&')]
+        if len(add_svc) != 1 or len(rem_svc) != 1 or len(add_h) != 1 or len(lookup) != 1:
+            raise Unmodelled('Server::add_service / remove_service / ServiceRegistry::add_handler / the path lookup not identified (%d/%d/%d/%d)' % (
+                len(add_svc), len(rem_svc), len(add_h), len(lookup)))
+        state_ty = lookup[0].local_ty(1).lstrip('&').strip()
+        sa = facts.adts[srv_adt[0]]
+        OPS = {'A1': ('add', 'S', ('p', 'q'), 'i1'), 'A2': ('add', 'S', ('p',), 'i2'), 'A3': ('add', 'T', ('p',), 'i3'), 'RS': ('remove', 'S'), 'RT': ('remove', 'T')}
+        URIS = [('S', 'p'), ('S', 'q'), ('T', 'p'), ('T', 'q')]
+        bad = None
+        n_seq = 0
+        for n in (1, 2, 3):
+            for seq in itertools.product(sorted(OPS), repeat=n):
+                n_seq += 1
+                cur = {'name': None, 'paths': (), 'path': None}
+                it = Interp(facts, Order({}), opaque_call=server_hook(cur, add_h[0]), step_limit=200000)
+                it.unknown_call = actor_abs.lenient_unknown
+                it.opaque_fields = True
+                st = default_wrapped(it, state_ty)
+                if st is None:
+                    raise Unmodelled('the registry state %s cannot be constructed' % state_ty)
+                cells = []
+                for f in sa['variants'][0]['fields']:
+                    cells.append(Cell(st) if ty_head(f['ty']) == ty_head(state_ty) else Cell(('opaque', 'server-field:' + f['name'])))
+                server = ('adt', srv_adt[0], 0, cells)
+                if not any(ty_head(f['ty']) == ty_head(state_ty) for f in sa['variants'][0]['fields']):
+                    raise Unmodelled('Server does not hold the registry state directly')
+                reg, keys = {}, {}
+                for opn in seq:
+                    op = OPS[opn]
+                    if op[0] == 'add':
+                        cur.update(name=op[1], paths=op[2])
+                        it.run_body(add_svc[0], [('ref', Cell(server)), ('opaque', 'svc-instance:' + op[3])])
+                        for p in op[2]:
+                            reg[(op[1], p)] = op[3]
+                            keys.setdefault(op[1], set()).add((op[1], p))
+                    else:
+                        it.run_body(rem_svc[0], [('ref', Cell(server)), ('ref', Cell(('key', op[1])))])
+                        for k in keys.pop(op[1], set()):
+                            reg.pop(k, None)
+                    for (sn, pa) in URIS:
+                        r = it.deref_all(it.run_body(lookup[0], [('ref', Cell(st)), ('ref', Cell(('key', 'U(%s,%s)' % (sn, pa))))]))
+                        got = find_instance(it, r[3][0].v) if (r is not None and r[0] == 'adt' and r[2] == 1 and r[3]) else None
+                        if r is not None and r[0] == 'adt' and r[2] == 1 and got is None:
+                            got = '?'
+                        want = reg.get((sn, pa))
+                        if got != want and bad is None:
+                            bad = (seq[:seq.index(opn) + 1] if opn in seq else seq, (sn, pa), got, want)
+    except (Unmodelled, absint.NeedChoice, absint.PanicPath, IndexError, TypeError, KeyError, AttributeError, ValueError) as e:
+        return _fallback(ctx, rule, e)
+
+    def show(seq):
+        return ', '.join({'A1': 'add S{p,q} (instance 1)', 'A2': 'add S{p} (instance 2)', 'A3': 'add T{p} (instance 3)', 'RS': 'remove S', 'RT': 'remove T'}[o] for o in seq)
+    ctx.ob(rule, 'served-exactly-when-registered', bad is None, '%s:%s' % (add_svc[0].file, add_svc[0].line),
+           'over all %d sequences of up to three add_service / remove_service calls, a request path finds exactly the handler instance last registered for it and '
+           'none once its service was removed' % n_seq if bad is None else
+           'after [%s] the path of message %s of service %s is served by %s, expected %s' % (show(bad[0]), bad[1][1], bad[1][0],
+                                                                                         'instance ' + str(bad[2]) if bad[2] else 'nobody', 'instance ' + str(bad[3]) if bad[3] else 'nobody (unknown service)'))
+    return True
+
+
+def build_state(facts, registered, name='S', path='p', inst='H'):
+    """(registry state value, hook) — the state is what ServerState::default() gives, after `Server::add_service` of a service
+    `name` with one message `path` served by instance `inst` when `registered`; representation-independent"""
+    import actor_abs
+    R = 'datacake_rpc::'
+    srv_adt = [n for n in facts.adts if n.startswith(R) and n.endswith('::Server')]
+    ms = [b for b in facts.bodies.values() if b.crate == 'datacake_rpc' and b.kind == 'method' and not b.name.startswith('<')]
+    add_svc = [b for b in ms if b.name.endswith('::Server::add_service')]
+    add_h = [b for b in ms if '::ServiceRegistry::' in b.name and b.argc == 1 and b.local_ty(1).startswith('&mut ') and b.local_ty(0) == '()']
+    lookup = [b for b in ms if b.argc == 2 and b.local_ty(2) in ('&str', '&alloc::string::String') and b.local_ty(0).startswith('core::option::Option<')
+              and 'OpaqueMessageHandler' in b.local_ty(0) and b.local_ty(1).startswith('&')]
+    if len(srv_adt) != 1 or len(add_svc) != 1 or len(add_h) != 1 or len(lookup) != 1:
+        raise Unmodelled('Server::add_service / ServiceRegistry::add_handler / the path lookup not identified')
+    state_ty = lookup[0].local_ty(1).lstrip('&').strip()
+    cur = {'name': name, 'paths': (path,), 'path': path}
+    hk = server_hook(cur, add_h[0])
+    it = Interp(facts, Order({}), opaque_call=hk, step_limit=200000)
+    it.unknown_call = actor_abs.lenient_unknown
+    it.opaque_fields = True
+    st = default_wrapped(it, state_ty)
+    if st is None:
+        raise Unmodelled('the registry state %s cannot be constructed' % state_ty)
+    sa = facts.adts[srv_adt[0]]
+    cells = [Cell(st) if ty_head(f['ty']) == ty_head(state_ty) else Cell(('opaque', 'server-field:' + f['name'])) for f in sa['variants'][0]['fields']]
+    if registered:
+        it.run_body(add_svc[0], [('ref', Cell(('adt', srv_adt[0], 0, cells))), ('opaque', 'svc-instance:' + inst)])
+    return st, hk, 'U(%s,%s)' % (name, path)
